@@ -88,7 +88,7 @@ func GenDoc(t *rapid.T, o GenOpts) Doc {
 
 	kinds := []string{BPara, BPara}
 	if !o.NoHeadings {
-		kinds = append(kinds, BHeading)
+		kinds = append(kinds, BHeading, BHeading)
 	}
 	if !o.NoLists {
 		kinds = append(kinds, BItem)
@@ -164,11 +164,18 @@ func (g *genState) listDef(i int) ListDef {
 	t := g.t
 	var ld ListDef
 	uniform := g.o.NoMixedLists || rapid.IntRange(0, 2).Draw(t, "mixed") < 2
-	first := rapid.SampledFrom(AllListKinds).Draw(t, "lkind")
+	// bullets are half of all lists; the five numbered kinds share the rest
+	pick := func() string {
+		if rapid.Bool().Draw(t, "numbered") {
+			return rapid.SampledFrom(AllListKinds[1:]).Draw(t, "lkind")
+		}
+		return LBullet
+	}
+	first := pick()
 	for lvl := 0; lvl < 4; lvl++ {
 		k := first
 		if lvl > 0 {
-			k = rapid.SampledFrom(AllListKinds).Draw(t, "lkind")
+			k = pick()
 			if uniform && Ordered(k) != Ordered(first) {
 				if Ordered(first) {
 					k = LDecimal
